@@ -736,7 +736,9 @@ fn ew_run(parties: &mut [Participant], ctx: &std::sync::Arc<HeContext>, pk: &Pub
 
 fn ew_cfg(r: &mut Rng, scheme: SchemeType, parties: usize, k: usize) -> Option<Cfg> {
     let lg = r.range(3, 5) as usize; let n = 1usize << lg;
-    let mut bits: Vec<usize> = (0..k - 1).map(|_| *r.pick(&[45usize, 50, 55, 59])).collect(); bits.push(60);
+    // four parties = two consecutive products without modulus switching: large data primes only (otherwise BGV leaves no budget to claim anything)
+    let pool: &[usize] = if parties >= 4 { &[55, 59] } else { &[45, 50, 55, 59] };
+    let mut bits: Vec<usize> = (0..k - 1).map(|_| *r.pick(pool)).collect(); bits.push(60);
     let qs = pick_primes(r, n, &bits)?;
     let b = r.range(lg as u64 + 2, 12) as usize;
     let t = std::panic::catch_unwind(|| heathcliff::util::get_primes(2 * n as u64, b, 1)[0].value()).ok()?;
@@ -825,7 +827,7 @@ fn ewvp_inner(out: &mut Out, cfg: &Cfg, seen: &mut HashSet<String>) -> Option<(u
     let nperm = fact(cnt);
     let ids: Vec<usize> = (0..cnt).collect();
     let scheds: Vec<(Vec<usize>, usize, usize)> = if cnt <= 3 {
-        (0..inter.len() * inter.len()).map(|i| (perm_nth(&ids, (i as u64) % nperm), i / inter.len(), i % inter.len())).collect()
+        (0..(inter.len() * inter.len()).max(nperm as usize)).map(|i| (perm_nth(&ids, (i as u64) % nperm), (i / inter.len()) % inter.len(), i % inter.len())).collect()
     } else {
         (0..inter.len().max(nperm as usize)).map(|i| (perm_nth(&ids, (i as u64) % nperm), i % inter.len(), (i * 7 + 3) % inter.len())).collect()
     };
